@@ -133,8 +133,8 @@ def queries(tier):
     q = tier == 'quick'
     qs = []
     if q:
-        plan = [('A_U_I', 1), ('O_a.UI_b.S', 1), ('UI', 0), ('S1', 0), ('P_UI', 0)]
-        side = ['U', 'D', 'O', 'O_a.X_b.UI', 'O_a.U_b.T', 'P_O_a.UI']
+        plan = [('O_a.UI_b.S', 1), ('A_U_I', 0), ('UI', 0), ('P_UI', 0)]      # quick is a subsample of the thorough plan
+        side = ['U', 'D', 'S1', 'O', 'O_a.X_b.UI', 'O_a.U_b.T', 'P_O_a.UI']
         srcs = ['A_UI', 'O_a.UI']
     else:
         plan = [(p, 2) for p in ('UI', 'S1', 'A_U_I', 'O_a.UI_b.S', 'O_a.X_b.UI')] + \
@@ -148,6 +148,8 @@ def queries(tier):
         if not q:
             qs.append(Q(p, 'AP_SCALAR', SEL=3, W=0)); qs.append(Q(p, 'KEY', KA=1, W=0)); qs.append(Q(p, 'AS_COPY', src='O_a.UI'))
     if q: qs.append(Q('A_UI', 'AP_ELEM', SEL=0)); qs.append(Q('A_UI', 'AP_ELEM', SEL=1)); qs.append(Q('A_T_S', 'AP_ELEM', SEL=0)); qs.append(Q('A_T_S', 'AP_ELEM', SEL=1))
+    if q:
+        for op, kw in (('AS_SCALAR', {'SEL': 3}), ('AP_SCALAR', {'SEL': 3, 'W': 0}), ('AS_STR', {'LEN_A': 1, 'SEL': 0}), ('KEY', {'KA': 1, 'W': 0}), ('AP_COPY', {'src': 'A_UI'})): qs.append(Q('S1', op, **kw))
     for p, bvs in (('A', (1, 2, 3)), ('A_UI_I', (1, 2, 3)), ('O', (1, 2, 3)), ('O_a.UI_b.S', (1, 2, 3)), ('O_a.X_b.UI', (1, 2, 3))):   # the other constructor families
         for bv in (bvs if not q else bvs[1:2]):
             qs.append(Q(p, 'NONE', BV=bv))
